@@ -6,6 +6,16 @@
 //
 // A case with child=true is executed in a child process started with the case's REAL command line
 // (os.Args as the operating system delivers them); the others set os.Args before app.NewApp().
+//
+// Loader kind "user" is a loader type written here (not one of the library's): class P / O / U decides whether it
+// implements Order()+Priority(), Order() only, or neither; it records its id when LoadConfig is called (read order).
+//
+// A case with a "steps" list is a HISTORY on ONE Configure: start = new (configure.NewConfigure + viper binder) |
+// default (configure.Default() under the case's os.Args) | appdefault (the Configure of app.NewApp()); steps
+// set / add / setconfig / init / get are applied to it directly, except for the trailing steps marked app=true, which
+// become options of one App.Run (app.SetConfigure(cfg) first, unless the Configure is the App's own): the Initialize
+// of that segment is the one App.Run performs.
+// stdout for a history: {id, steps:[{out, log, gets}...], bound, detail}.
 package main
 
 import (
@@ -24,6 +34,7 @@ import (
 
 	"github.com/go-kid/ioc/app"
 	"github.com/go-kid/ioc/configure"
+	"github.com/go-kid/ioc/configure/binder"
 	"github.com/go-kid/ioc/configure/loader"
 	"github.com/go-kid/ioc/definition"
 
@@ -31,10 +42,26 @@ import (
 )
 
 type LoaderSpec struct {
-	Kind string   `json:"kind"` // raw | file | args
+	Kind string   `json:"kind"` // raw | file | args | user
 	Text string   `json:"text"`
 	File string   `json:"file"`
 	Args []string `json:"args"`
+	Cls  string   `json:"cls"` // user: P | O | U
+	Ord  int      `json:"ord"`
+	Lid  int      `json:"lid"`
+}
+
+type StepSpec struct {
+	Op      string       `json:"op"` // set | add | setconfig | init | get
+	File    string       `json:"file"`
+	Loaders []LoaderSpec `json:"loaders"`
+	App     bool         `json:"app"`
+}
+
+type StepOut struct {
+	Out  string `json:"out,omitempty"`
+	Log  []int  `json:"log"`
+	Gets []any  `json:"gets,omitempty"`
 }
 
 type OpSpec struct {
@@ -44,20 +71,66 @@ type OpSpec struct {
 }
 
 type Case struct {
-	ID     int      `json:"id"`
-	OsArgs []string `json:"osargs"`
-	Ops    []OpSpec `json:"ops"`
-	Paths  []string `json:"paths"`
-	Prefix string   `json:"prefix"`
-	Child  bool     `json:"child"`
+	ID     int        `json:"id"`
+	OsArgs []string   `json:"osargs"`
+	Ops    []OpSpec   `json:"ops"`
+	Paths  []string   `json:"paths"`
+	Prefix string     `json:"prefix"`
+	Child  bool       `json:"child"`
+	Start  string     `json:"start"`
+	Steps  []StepSpec `json:"steps"`
 }
 
 type Out struct {
-	ID     int    `json:"id"`
-	Out    string `json:"out"`
-	Gets   []any  `json:"gets"`
-	Bound  any    `json:"bound"`
-	Detail string `json:"detail"`
+	ID     int       `json:"id"`
+	Out    string    `json:"out"`
+	Gets   []any     `json:"gets"`
+	Bound  any       `json:"bound"`
+	Detail string    `json:"detail"`
+	Log    []int     `json:"log"`
+	Steps  []StepOut `json:"steps,omitempty"`
+}
+
+// ---- loaders written by "the user" ------------------------------------------------------------
+
+var userLog []int
+
+type uBase struct {
+	lid  int
+	text string
+}
+
+func (u *uBase) LoadConfig() ([]byte, error) {
+	userLog = append(userLog, u.lid)
+	if u.text == "" {
+		return nil, nil
+	}
+	return []byte(u.text), nil
+}
+
+type uOrd struct{ ord int }
+
+func (o *uOrd) Order() int { return o.ord }
+
+type uPrio struct{}
+
+func (*uPrio) Priority() {}
+
+type uP struct {
+	uBase
+	uOrd
+	uPrio
+}
+type uO struct {
+	uBase
+	uOrd
+}
+type uU struct{ uBase }
+
+func takeLog() []int {
+	l := append([]int{}, userLog...)
+	userLog = nil
+	return l
 }
 
 type Input struct {
@@ -137,8 +210,18 @@ func mkLoader(s LoaderSpec) configure.Loader {
 		return loader.NewFileLoader(s.File)
 	case "args":
 		return loader.NewArgsLoader(s.Args)
+	case "user":
+		b := uBase{lid: s.Lid, text: s.Text}
+		switch s.Cls {
+		case "P":
+			return &uP{uBase: b, uOrd: uOrd{s.Ord}}
+		case "O":
+			return &uO{uBase: b, uOrd: uOrd{s.Ord}}
+		case "U":
+			return &uU{uBase: b}
+		}
 	}
-	panic("bad loader kind " + s.Kind)
+	panic("bad loader kind " + s.Kind + s.Cls)
 }
 
 func mkLoaders(ss []LoaderSpec) []configure.Loader {
@@ -149,14 +232,16 @@ func mkLoaders(ss []LoaderSpec) []configure.Loader {
 	return ls
 }
 
-func runCase(c Case, setArgs bool) Out {
-	out := Out{ID: c.ID}
+func runCase(c Case, setArgs bool) (out Out) {
+	out = Out{ID: c.ID}
 	if setArgs {
 		os.Args = append([]string{os.Args[0]}, c.OsArgs...)
 	}
 	var a *app.App
 	var holder reflect.Value
 	var runErr error
+	userLog = nil
+	defer func() { out.Log = takeLog() }()
 	p := hx.Guard(func() {
 		a = app.NewApp() // configure.Default(): SetLoaders(ArgsLoader(os.Args)); defer flag.Parse()
 		var ops []app.SettingOption
@@ -222,6 +307,144 @@ func runCase(c Case, setArgs bool) Out {
 	return out
 }
 
+func short(s string) string {
+	if len(s) > 300 {
+		return s[:300]
+	}
+	return s
+}
+
+func holderFor(prefix string) reflect.Value {
+	t := reflect.StructOf([]reflect.StructField{{
+		Name: "M",
+		Type: reflect.TypeOf(map[string]any{}),
+		Tag:  reflect.StructTag(fmt.Sprintf(`prefix:"%s"`, prefix)),
+	}})
+	return reflect.New(t)
+}
+
+// runHistory drives ONE Configure through the case's steps.
+func runHistory(c Case) (out Out) {
+	out = Out{ID: c.ID, Out: "ok"}
+	os.Args = append([]string{os.Args[0]}, c.OsArgs...)
+	userLog = nil
+	var cfg configure.Configure
+	var a *app.App
+	var holder reflect.Value
+	if p := hx.Guard(func() {
+		switch c.Start {
+		case "new":
+			cfg = configure.NewConfigure()
+			cfg.SetBinder(binder.NewViperBinder("yaml"))
+		case "default":
+			cfg = configure.Default()
+		case "appdefault":
+			a = app.NewApp()
+			cfg = a.Configure
+		default:
+			panic("bad start " + c.Start)
+		}
+	}); p != "" {
+		out.Out = "panic"
+		out.Detail = "start: " + p
+		return out
+	}
+	get := func() StepOut {
+		so := StepOut{}
+		if p := hx.Guard(func() {
+			for _, path := range c.Paths {
+				v := cfg.Get(path)
+				if v == nil {
+					so.Gets = append(so.Gets, nil)
+				} else {
+					so.Gets = append(so.Gets, canon(v))
+				}
+			}
+		}); p != "" {
+			so.Out = "panic"
+			out.Detail = "get: " + short(p)
+		}
+		return so
+	}
+	var appOps []app.SettingOption
+	for _, st := range c.Steps {
+		so := StepOut{}
+		switch st.Op {
+		case "set", "add", "setconfig":
+			if st.App {
+				switch st.Op {
+				case "set":
+					appOps = append(appOps, app.SetConfigLoader(mkLoaders(st.Loaders)...))
+				case "add":
+					appOps = append(appOps, app.AddConfigLoader(mkLoaders(st.Loaders)...))
+				default:
+					appOps = append(appOps, app.SetConfig(st.File))
+				}
+			} else if p := hx.Guard(func() {
+				switch st.Op {
+				case "set":
+					cfg.SetLoaders(mkLoaders(st.Loaders)...)
+				case "add":
+					cfg.AddLoaders(mkLoaders(st.Loaders)...)
+				default:
+					cfg.AddLoaders(loader.NewFileLoader(st.File))
+				}
+			}); p != "" {
+				so.Out = "panic"
+				out.Detail = st.Op + ": " + short(p)
+			}
+		case "init":
+			userLog = nil
+			var err error
+			p := hx.Guard(func() {
+				if st.App {
+					ops := []app.SettingOption{}
+					if a == nil {
+						a = app.NewApp()
+						ops = append(ops, app.SetConfigure(cfg))
+					}
+					ops = append(ops, appOps...)
+					appOps = nil
+					if c.Prefix != "" {
+						holder = holderFor(c.Prefix)
+						ops = append(ops, app.SetComponents(holder.Interface()))
+					}
+					err = a.Run(ops...)
+				} else {
+					err = cfg.Initialize()
+				}
+			})
+			switch {
+			case p != "":
+				so.Out = "panic"
+				out.Detail = "init: " + short(p)
+			case err != nil:
+				so.Out = "err"
+				out.Detail = "init: " + short(err.Error())
+			default:
+				so.Out = "ok"
+			}
+			so.Log = takeLog()
+		case "get":
+			so = get()
+		default:
+			panic("bad step " + st.Op)
+		}
+		out.Steps = append(out.Steps, so)
+	}
+	if holder.IsValid() {
+		if p := hx.Guard(func() {
+			m := holder.Elem().Field(0).Interface().(map[string]any)
+			if m != nil {
+				out.Bound = canon(m)
+			}
+		}); p != "" {
+			out.Detail = "bound: " + short(p)
+		}
+	}
+	return out
+}
+
 func runChild(c Case) Out {
 	ctx, cancel := context.WithTimeout(context.Background(), 30*time.Second)
 	defer cancel()
@@ -259,7 +482,9 @@ func main() {
 	outs := make([]Out, 0, len(in.Cases))
 	for _, c := range in.Cases {
 		os.Args = []string{self}
-		if c.Child {
+		if len(c.Steps) > 0 {
+			outs = append(outs, runHistory(c))
+		} else if c.Child {
 			outs = append(outs, runChild(c))
 		} else {
 			outs = append(outs, runCase(c, true))
@@ -286,5 +511,8 @@ func loaderFacts() map[string]any {
 		"file2": class(loader.NewFileLoader("b.yaml")),
 		"raw":   class(loader.NewRawLoader([]byte("a: 1"))),
 		"args":  class(loader.NewArgsLoader([]string{"--app.config=a=1"})),
+		"userP": class(&uP{uOrd: uOrd{5}}),
+		"userO": class(&uO{uOrd: uOrd{-3}}),
+		"userU": class(&uU{}),
 	}
 }
